@@ -256,8 +256,13 @@ class User(callbacks.Plugin):
                 value = not user.secure
             if user.checkPassword(password) and \
                user.checkHostmask(msg.prefix, useAuth=False):
+                secure = user.secure
                 user.secure = value
-                ircdb.users.setUser(user)
+                try:
+                    ircdb.users.setUser(user)
+                except ircdb.DuplicateHostmask:
+                    user.secure = secure
+                    raise
                 irc.reply(_('Secure flag set to %s') % value)
             else:
                 irc.error(conf.supybot.replies.incorrectAuthentication())
